@@ -63,7 +63,7 @@ pub(crate) mod verif_c06s {
         kani::cover!(true);
     }
     /// Inside: all inside; Outside: all outside; Center: the larger half inside; the parts add up.
-    //@harness prop=C06 kind=lemma tier=quick class=P
+    //@harness prop=C06,C08 kind=lemma tier=quick class=P
     #[kani::proof]
     #[kani::stub_verified(PrimitiveStyle::<Gray8>::outside_stroke_width)]
     #[kani::stub_verified(PrimitiveStyle::<Gray8>::inside_stroke_width)]
@@ -112,7 +112,7 @@ mod verif_c06r {
     /// Styled rectangle on a native target, every position/size/stroke width <= 4096, three alignments,
     /// colours present/absent: the pixel map at an arbitrary probe point is the one the statement
     /// prescribes, nothing is painted outside the styled bounding box. draw_styled is loop-free.
-    //@harness prop=C06,C02 kind=lemma tier=quick class=P fns=src/primitives/rectangle/styled.rs::Rectangle::draw_styled;src/primitives/rectangle/styled.rs::Rectangle::styled_bounding_box
+    //@harness prop=C06,C02,C08 kind=lemma tier=quick class=P fns=src/primitives/rectangle/styled.rs::Rectangle::draw_styled;src/primitives/rectangle/styled.rs::Rectangle::styled_bounding_box
     #[kani::proof]
     fn c06_rectangle_draw_probe() {
         let r = any_rect(DOM);
@@ -136,7 +136,7 @@ mod verif_c06r {
 
     /// stroke_area / fill_area: the shape grown on every side by the outside part of the stroke and
     /// shrunk by the inside part (non-degenerate: the shrunk shape keeps a positive size).
-    //@harness prop=C06,C02 kind=lemma tier=quick class=P fns=src/primitives/styled.rs::Styled::fill_area;src/primitives/styled.rs::Styled::stroke_area;src/primitives/primitive_style.rs::PrimitiveStyle::stroke_area;src/primitives/primitive_style.rs::PrimitiveStyle::fill_area;src/primitives/rectangle/mod.rs::Rectangle::offset
+    //@harness prop=C06,C02,C08 kind=lemma tier=quick class=P fns=src/primitives/styled.rs::Styled::fill_area;src/primitives/styled.rs::Styled::stroke_area;src/primitives/primitive_style.rs::PrimitiveStyle::stroke_area;src/primitives/primitive_style.rs::PrimitiveStyle::fill_area;src/primitives/rectangle/mod.rs::Rectangle::offset
     #[kani::proof]
     fn c06_rectangle_areas() {
         let r = any_rect(DOM);
@@ -220,7 +220,7 @@ pub(in crate::primitives) mod verif_c06l {
     /// draw_stroke_and_fill / draw_stroke / Scanline::draw on a native target: a point of row y gets the
     /// stroke colour on stroke_range minus fill_range, the fill colour on fill_range, nothing else is
     /// touched (loop-free: every range).
-    //@harness prop=C06,C01 kind=contract tier=quick class=I fns=src/primitives/common/styled_scanline.rs::StyledScanline::draw_stroke_and_fill;src/primitives/common/styled_scanline.rs::StyledScanline::draw_stroke;src/primitives/common/styled_scanline.rs::StyledScanline::stroke_left;src/primitives/common/styled_scanline.rs::StyledScanline::stroke_right;src/primitives/common/styled_scanline.rs::StyledScanline::fill;src/primitives/common/scanline.rs::Scanline::draw
+    //@harness prop=C06,C01,C08 kind=contract tier=quick class=I fns=src/primitives/common/styled_scanline.rs::StyledScanline::draw_stroke_and_fill;src/primitives/common/styled_scanline.rs::StyledScanline::draw_stroke;src/primitives/common/styled_scanline.rs::StyledScanline::stroke_left;src/primitives/common/styled_scanline.rs::StyledScanline::stroke_right;src/primitives/common/styled_scanline.rs::StyledScanline::fill;src/primitives/common/scanline.rs::Scanline::draw
     #[kani::proof]
     fn c06_styled_scanline_draw() {
         let s = any_styled_scanline();
@@ -276,7 +276,7 @@ mod verif_c06c {
 
     /// Circle::offset keeps the centre and changes the diameter by 2n: the stroke area is the circle
     /// grown on every side by the outside part, the fill area the circle shrunk by the inside part.
-    //@harness prop=C06,C02 kind=lemma tier=quick class=P fns=src/primitives/circle/mod.rs::Circle::offset;src/primitives/circle/mod.rs::Circle::with_center;src/primitives/circle/mod.rs::Circle::center
+    //@harness prop=C06,C02,C08 kind=lemma tier=quick class=P fns=src/primitives/circle/mod.rs::Circle::offset;src/primitives/circle/mod.rs::Circle::with_center;src/primitives/circle/mod.rs::Circle::center
     #[kani::proof]
     fn c06_circle_areas() {
         let c = any_circle(4096);
